@@ -365,10 +365,10 @@ PROPS['C15'] = {
     'assumptions': _KERNEL_ASSUMPTIONS + ['the sandbox command is tested as a built binary from the outside (no hooks)'],
     'required_classes': {'all': ['invalid:' + d for d in ('missing-file', 'empty-file', 'yaml-syntax', 'wrong-type', 'unknown-syscall', 'unknown-syscall-conditional', 'unknown-action',
                                                           'unknown-default-action', 'unknown-operation', 'no-seccomp-key', 'empty-syscalls', 'argument-index-6', 'oversize-program',
-                                                          'unprivileged-without-nnp', 'binary-garbage')] +
+                                                          'unprivileged-without-nnp', 'binary-garbage', 'entry-without-arguments', 'entry-with-empty-arguments')] +
                          ['valid', 'target-sees-denied-and-allowed-probes', 'target-killed-at-the-expected-probe', 'uid:65534', 'nnp:false']},
     'units': [
-        {'test': 'TestC15Sandbox', 'checks': {'quick': 320, 'thorough': 12000}, 'shards': {'quick': 8, 'thorough': 16}, 'helpers': _SANDBOX,
+        {'test': 'TestC15Sandbox', 'checks': {'quick': 480, 'thorough': 16000}, 'shards': {'quick': 8, 'thorough': 16}, 'helpers': _SANDBOX,
          'timeout': {'quick': 500, 'thorough': 3300}},
     ],
 }
@@ -410,10 +410,10 @@ PROPS['C17'] = {
              'exactly the profile of a cold-cache run (fresh HOME) for the current binary; a history is non-trivial iff it contains a crash or a tool failure; distinct by hash of the case JSON'),
     'assumptions': ['crash = SIGKILL of the profiler\'s process group after its cache file stopped growing; power-failure reorderings of file system writes are not modelled',
                     'the profiler is built with CGO_ENABLED=0 and run as a uid without passwd entry so that $HOME selects a private cache directory'],
-    'required_classes': {'all': ['crash-before-first-flush', 'crash-between-flushes', 'tool-exit-nonzero-after-partial-output', 'tool-missing', 'binary-changed', 'final-run-correct-profile',
+    'required_classes': {'all': ['crash-before-first-flush', 'crash-between-flushes', 'tool-exit-nonzero-after-partial-output', 'tool-missing', 'tool-killed-by-signal', 'binary-changed', 'final-run-correct-profile',
                                  'binary:amd64', 'binary:386']},
     'units': [
-        {'test': 'TestC17Cache', 'checks': {'quick': 96, 'thorough': 4000}, 'shards': {'quick': 8, 'thorough': 16}, 'helpers': _PROFILER,
+        {'test': 'TestC17Cache', 'checks': {'quick': 320, 'thorough': 8000}, 'shards': {'quick': 8, 'thorough': 16}, 'helpers': _PROFILER,
          'timeout': {'quick': 500, 'thorough': 3300}},
     ],
 }
